@@ -246,6 +246,8 @@ class RefTraj:
             self.pc = np.asarray(pv.get("pc", P.pc_table(d)), dtype=float).reshape(-1)
         self.vg = float(np.asarray(q["vg"]).reshape(-1)[0]) if d["vg"] else None
         self.vc = np.asarray(q["vc"], dtype=float).reshape(-1) if d["vc"] else None
+        self.pcq = P.pc_table(d, "pcq").reshape(-1) if d["pc"] == "both" else None
+        self.vcq = np.asarray(q["vcq"], dtype=float).reshape(-1) if d["vc"] == "both" else None
         self.nu = P.nu_of(d)
         self.U = np.asarray(q["U"], dtype=float).reshape(self.nu, N, order="F") if self.nu else np.zeros((0, N))
         self.nx = P.nx_of(d)
@@ -272,6 +274,10 @@ class RefTraj:
             s["pc"] = float(self.pc[node if (d["pc"] == "control+" and node is not None) else kk])
         if self.vc is not None:
             s["vc"] = float(self.vc[node if (d["vc"] == "control+" and node is not None) else kk])
+        if self.pcq is not None:
+            s["pcq"] = float(self.pcq[node if node is not None else kk])
+        if self.vcq is not None:
+            s["vcq"] = float(self.vcq[node if node is not None else kk])
         s["DT_control"] = self.tc[kk + 1] - self.tc[kk]
         s["DT"] = s["DT_control"] / self.M
         return s
@@ -284,16 +290,34 @@ class RefTraj:
             s["z"] = float(z)
         return s
 
+    def zpoly(self, k, l, tau):
+        """algebraic value off the collocation points: the polynomial through the step's collocation values
+        (degree d-1 on the d collocation nodes), evaluated at local time tau"""
+        col = self.col
+        deg = self.d["degree"]
+        val = 0.0
+        for j in range(deg):
+            lj = 1.0
+            for r in range(deg):
+                if r != j:
+                    lj *= (tau - col["tau"][r]) / (col["tau"][j] - col["tau"][r])
+            val += self.Zr[k][l][j] * lj
+        return val
+
     def pt_control(self, n):
         s = self._interval_env(n, node=n)
         s.update(unflatten(self.d, self.X[:, n]))
         s["t"] = self.tc[n]
+        if self.d["alg"] and self.d["method"] == "DC":
+            s["z"] = self.zpoly(n, 0, 0.0) if n < self.N else self.zpoly(self.N - 1, self.M - 1, 1.0)
         return RefPt(self, "control", n, s)
 
     def pt_integrator(self, k, l):
         s = self._interval_env(k, node=k)
         s.update(unflatten(self.d, self.Xi[k][l]))
         s["t"] = self.ti[k][l]
+        if self.d["alg"] and self.d["method"] == "DC":
+            s["z"] = self.zpoly(k, l, 0.0)
         return RefPt(self, "integrator", (k, l), s)
 
     def pt_root(self, k, l, j):
